@@ -37,6 +37,9 @@ func ptrElem(t types.Type) types.Type {
 // load reads through a pointer value.
 func (x *Engine) load(fr *Frame, st *State, p Val, pos token.Pos) Val {
 	et := ptrElem(p.Typ)
+	if p.Static != nil {
+		return *p.Static
+	}
 	if p.Addr != nil {
 		v := Val{T: x.name("ld", x.sortOf(et), x.loadAddr(st, p.Addr)), Typ: et}
 		x.assume(st, x.wf(et, v.T, st))
@@ -63,6 +66,9 @@ func (x *Engine) store(fr *Frame, st *State, p Val, v Val, pos token.Pos) {
 	et := ptrElem(p.Typ)
 	if !p.Fresh {
 		x.bumpEpoch(st)
+	}
+	if p.Static != nil {
+		*p.Static = v
 	}
 	if p.Addr != nil {
 		x.storeAddr(st, p.Addr, v.T)
@@ -317,7 +323,13 @@ func (x *Engine) indexAddr(fr *Frame, st *State, i *ssa.IndexAddr) Val {
 		if _, ok := structOf(u.Elem()); ok {
 			return Val{T: x.name("er", "Int", x.elemRef(base, off)), Typ: i.Type()}
 		}
-		return Val{T: "(faddr 1)", Typ: i.Type(), Addr: &Addr{Kind: "elem", Key: x.elemKey(u.Elem()), Ref: base, Idx: off}}
+		r := Val{T: "(faddr 1)", Typ: i.Type(), Addr: &Addr{Kind: "elem", Key: x.elemKey(u.Elem()), Ref: base, Idx: off}}
+		if b.Elems != nil && b.Off == "" {
+			if k, ok := litInt(idx.T); ok && k >= 0 && int(k) < len(b.Elems) && b.Elems[k].T != "" {
+				r.Static = &b.Elems[k]
+			}
+		}
+		return r
 	case *types.Pointer:
 		arr := u.Elem().Underlying().(*types.Array)
 		x.nilCheck(fr, st, b, "array", i.Pos())
@@ -362,10 +374,68 @@ func (x *Engine) unop(fr *Frame, st *State, i *ssa.UnOp) Val {
 	panic("unop " + i.Op.String())
 }
 
+// litInt parses a decimal SMT integer literal ("5" or "(- 5)").
+func litInt(s string) (int64, bool) {
+	neg := false
+	if strings.HasPrefix(s, "(- ") && strings.HasSuffix(s, ")") {
+		neg = true
+		s = s[3 : len(s)-1]
+	}
+	if s == "" || len(s) > 17 {
+		return 0, false
+	}
+	var n int64
+	for _, c := range s {
+		if c < '0' || c > '9' {
+			return 0, false
+		}
+		n = n*10 + int64(c-'0')
+	}
+	if neg {
+		n = -n
+	}
+	return n, true
+}
+
+func boolLit(b bool) string {
+	if b {
+		return "true"
+	}
+	return "false"
+}
+
 func (x *Engine) binop(fr *Frame, st *State, i *ssa.BinOp) Val {
 	a, b := x.val(fr, i.X), x.val(fr, i.Y)
 	t := i.X.Type()
 	rt := i.Type()
+	if isInteger(t) {
+		if ka, ok := litInt(a.T); ok {
+			if kb, ok := litInt(b.T); ok && ka > -(1<<40) && ka < 1<<40 && kb > -(1<<40) && kb < 1<<40 {
+				switch i.Op {
+				case token.ADD:
+					if !isUnsigned(t) || ka+kb >= 0 {
+						return Val{T: intLit(fmt.Sprint(ka + kb)), Typ: rt}
+					}
+				case token.SUB:
+					if !isUnsigned(t) || ka-kb >= 0 {
+						return Val{T: intLit(fmt.Sprint(ka - kb)), Typ: rt}
+					}
+				case token.LSS:
+					return Val{T: boolLit(ka < kb), Typ: rt}
+				case token.LEQ:
+					return Val{T: boolLit(ka <= kb), Typ: rt}
+				case token.GTR:
+					return Val{T: boolLit(ka > kb), Typ: rt}
+				case token.GEQ:
+					return Val{T: boolLit(ka >= kb), Typ: rt}
+				case token.EQL:
+					return Val{T: boolLit(ka == kb), Typ: rt}
+				case token.NEQ:
+					return Val{T: boolLit(ka != kb), Typ: rt}
+				}
+			}
+		}
+	}
 	pos := posOf(x.prog, i.Pos())
 	cmp := func(op string) Val {
 		return Val{T: x.name("c", "Bool", fmt.Sprintf("(%s %s %s)", op, a.T, b.T)), Typ: rt}
@@ -393,7 +463,8 @@ func (x *Engine) binop(fr *Frame, st *State, i *ssa.BinOp) Val {
 		return cmp(i.Op.String())
 	}
 	if isString(t) && i.Op == token.ADD {
-		x.declRaw("fun:strcat", "(declare-fun strcat (Str Str) Str)\n(assert (forall ((a Str) (b Str)) (! (= (strlen (strcat a b)) (+ (strlen a) (strlen b))) :pattern ((strcat a b)))))")
+		x.declRaw("fun:strcat", "(declare-fun strcat (Str Str) Str)")
+		x.emit(fmt.Sprintf("(assert (= (strlen (strcat %s %s)) (+ (strlen %s) (strlen %s))))", a.T, b.T, a.T, b.T))
 		return Val{T: fmt.Sprintf("(strcat %s %s)", a.T, b.T), Typ: rt}
 	}
 	if isFloat(t) {
